@@ -6,6 +6,7 @@ import (
 	"os"
 	"regexp"
 	"sync"
+	"unicode/utf8"
 
 	"github.com/reeflective/readline/inputrc"
 	"github.com/reeflective/readline/internal/strutil"
@@ -126,6 +127,26 @@ func PeekKey(keys *Keys) (key byte, empty bool) {
 	}
 
 	return key, false
+}
+
+// PeekRune returns the bytes of the first UTF-8 encoded character in the key stack,
+// without removing them. If the stack only holds the beginning of a multibyte
+// character, those bytes are returned with partial set to true. Nothing is
+// returned if the stack is empty or does not start with valid UTF-8.
+func PeekRune(keys *Keys) (char []byte, partial bool) {
+	if len(keys.buf) == 0 {
+		return nil, false
+	}
+
+	if !utf8.FullRune(keys.buf) {
+		return keys.buf, true
+	}
+
+	if r, size := utf8.DecodeRune(keys.buf); r != utf8.RuneError || size > 1 {
+		return keys.buf[:size], false
+	}
+
+	return nil, false
 }
 
 // MatchedKeys is used to indicate how many keys have been evaluated against the shell
